@@ -45,9 +45,9 @@ FORMS = ['convert1', 'convert2', 'convertdict', 'convertwhere',
          'convertpassrow', 'convertmethod', 'convertall', 'convertnumbers',
          'format', 'formatall', 'interpolate', 'interpolateall', 'fieldmap',
          'fieldmap2', 'rowmap', 'rowmapmany', 'fieldmapdict',
-         'fieldmapexpr']
+         'fieldmapexpr', 'sub']
 TWO_FIELD = ('convert2', 'convertdict', 'convertall', 'fieldmap2')
-NATURAL = ('fieldmapdict', 'fieldmapexpr',
+NATURAL = ('fieldmapdict', 'fieldmapexpr', 'sub',
            'convertmethod', 'convertnumbers', 'format', 'formatall',
            'interpolate', 'interpolateall')
 
@@ -264,6 +264,8 @@ def _gen_case(rng, tier, g):
     where = [rng.random() < 0.6 for _ in range(n)]
     # natural-failure forms: which cells are of the failing kind is part of
     # the table (enumerated inside the case as well)
+    if form == 'sub':
+        ev = 'none'
     return {'prop': PROP, 'form': form, 'n': n, 'errorvalue': ev,
             'where': where, 'consumers': rng.choice([1, 1, 2]),
             'j': [rng.randint(0, 2) for _ in range(3)],
@@ -364,6 +366,10 @@ def _build(e, case, fl, policy, mode, tbl):
         return e.interpolate(tbl, 'v', '%d', **evkw)
     if form == 'interpolateall':
         return e.interpolateall(e.cut(tbl, 'v'), '%d', **evkw)
+    if form == 'sub':
+        # a convenience wrapper of convert without policy arguments of its
+        # own: the global default is all there is
+        return e.sub(tbl, 'v', 'b', 'B')
     if form == 'fieldmapexpr':
         # a mapping given as an expression string: evaluating it on a text
         # cell fails (TypeError)
@@ -537,6 +543,8 @@ def _natural_model(case, failcells, policy):
             good = _TRANSLATE.get(v, v)
         elif form == 'fieldmapexpr':
             good = v + 1
+        elif form == 'sub':
+            good = 'aBc%d' % r
         elif form == 'convertnumbers':
             good = v
         elif form in ('format', 'formatall'):
@@ -563,8 +571,12 @@ def _natural_cells(case, failcells):
         bad = (r, 'v') in failcells
         if form == 'fieldmapdict':
             cells[(r, 'v')] = [r] if bad else r * 10 + 1
-        elif form == 'convertmethod':
+        elif form == 'sub':
             cells[(r, 'v')] = (r * 10 + 1) if bad else 'abc%d' % r
+        elif form == 'convertmethod':
+            # (None has no string methods either)
+            cells[(r, 'v')] = ((r * 10 + 1) if r % 2 else None) if bad \
+                else 'abc%d' % r
         elif form == 'convertnumbers':
             cells[(r, 'v')] = 'notnum%d' % r if bad else str(r * 10 + 1)
         else:
@@ -673,6 +685,8 @@ def run_case(case):
                     else:
                         want, raised = _model(case, fail, policy)
                     modes = ('arg', 'config')
+                    if form == 'sub':
+                        modes = ('config',)
                     if form in ('convert1', 'fieldmap'):
                         # the converter is installed on an existing view
                         # (view[field] = ...) after it has been iterated once
